@@ -34,11 +34,11 @@ RULE = (
 # are extended further come from the restricted alphabet (`Case._override` is observable on the newest case only).
 BOUNDS = {
     "quick": {
-        "A": {"depth": 3, "ids": [1, 11, 2], "pids": [1, 11], "statuses": [200, 404, 403, 500], "ops": "all 7",
+        "A": {"depth": 3, "ids": [1, 11, 2], "pids": [1, 11], "statuses": [200, 404, 403, 500], "ops": "all 8",
               "override_shapes": "all/some/none on the newest step, 'all' on earlier link-derived steps"},
     },
     "thorough": {
-        "A": {"depth": 3, "ids": [1, 11, 2], "pids": [1, 11, 2], "statuses": [200, 302, 404, 403, 500], "ops": "all 7",
+        "A": {"depth": 3, "ids": [1, 11, 2], "pids": [1, 11, 2], "statuses": [200, 302, 404, 403, 500], "ops": "all 8",
               "override_shapes": "all/some/none on every link-derived step"},
         "B": {"depth": 4, "ids": [1, 11], "pids": [1, 11], "statuses": [200, 404, 403, 500],
               "earlier_statuses": [200, 403, 500], "ops": "all but PUT",
@@ -70,6 +70,8 @@ OPS = [
     {"method": "GET", "path": "/users/{id}/posts", "vars": ["id"], "query": ["limit"]},
     {"method": "DELETE", "path": "/users/{id}/posts/{pid}", "vars": ["id", "pid"], "query": []},
     {"method": "GET", "path": "/orders/{id}", "vars": ["id"], "query": []},
+    # a sub-resource WITHOUT an identifier of its own: deeper path, same variables as /users/{id} (deleting it does not delete the user)
+    {"method": "DELETE", "path": "/users/{id}/avatar", "vars": ["id"], "query": []},
 ]
 LIMIT = 5  # value of the generated (or link-provided) optional query parameter
 
@@ -121,7 +123,7 @@ def link_parameters(op: int, shape: str) -> dict[str, str]:
 
 def document() -> dict:
     ok = {"200": {"description": "ok"}, "default": {"description": "other"}}
-    op_ids = {0: "createUser", 1: "getUser", 2: "putUser", 3: "deleteUser", 4: "listPosts", 5: "deletePost", 6: "getOrder"}
+    op_ids = {0: "createUser", 1: "getUser", 2: "putUser", 3: "deleteUser", 4: "listPosts", 5: "deletePost", 6: "getOrder", 7: "deleteAvatar"}
     links = {}
     for name, (op, shape) in sorted(LINKS.items()):
         links[name] = {"operationId": op_ids[op], "parameters": link_parameters(op, shape)}
@@ -143,6 +145,7 @@ def document() -> dict:
             "/users/{id}/posts/{pid}": {"delete": {"operationId": op_ids[5], "parameters": [_param("id"), _param("pid")],
                                                    "responses": ok}},
             "/orders/{id}": {"get": {"operationId": op_ids[6], "parameters": [_param("id")], "responses": ok}},
+            "/users/{id}/avatar": {"delete": {"operationId": op_ids[7], "parameters": [_param("id")], "responses": ok}},
         },
     }
 
